@@ -39,11 +39,13 @@ impl Log {
 pub struct RecordingStore {
     inner: Arc<InMemory>,
     pub log: Arc<Log>,
+    /// armed single-shot fault: (exact path, how many more puts of it succeed first)
+    pub fault: Arc<Mutex<Option<(String, usize)>>>,
 }
 
 impl RecordingStore {
     pub fn new() -> Self {
-        RecordingStore { inner: Arc::new(InMemory::new()), log: Arc::new(Log::default()) }
+        RecordingStore { inner: Arc::new(InMemory::new()), log: Arc::new(Log::default()), fault: Arc::new(Mutex::new(None)) }
     }
 }
 
@@ -51,7 +53,7 @@ impl RecordingStore {
     /// A new store holding a copy of everything durable right now (what a new process would find
     /// after this one died), with its own log.
     pub fn fork(&self) -> Self {
-        RecordingStore { inner: Arc::new(self.inner.fork()), log: Arc::new(Log::default()) }
+        RecordingStore { inner: Arc::new(self.inner.fork()), log: Arc::new(Log::default()), fault: Arc::new(Mutex::new(None)) }
     }
 }
 
@@ -65,6 +67,18 @@ impl fmt::Display for RecordingStore {
 impl ObjectStore for RecordingStore {
     async fn put_opts(&self, location: &Path, payload: PutPayload, opts: PutOptions) -> OsResult<PutResult> {
         self.log.w("put", location);
+        {
+            let mut f = self.fault.lock().unwrap();
+            if let Some((path, left)) = f.as_mut()
+                && *path == location.to_string()
+            {
+                if *left == 0 {
+                    *f = None;
+                    return Err(object_store::Error::Generic { store: "c14-fault", source: "injected single-shot put failure".into() });
+                }
+                *left -= 1;
+            }
+        }
         self.inner.put_opts(location, payload, opts).await
     }
 
